@@ -81,7 +81,11 @@ def cases(draw, kind):
         if kind == "fourier" and np.round(spec["f"] * (n // 2 + 1)) < 1:
             spec["f"] = 1.0  # sigma / cut-off of 0 frequencies is undefined by the definition itself
     e = draw(st.integers(1, 4))
-    datas = [draw(lg.data_spec(e=e, n=n, d=d)) for _ in range(draw(st.integers(1, 3)))]
+    # later evaluations on the same object may have another length and ensemble size (same coordinates)
+    k = draw(st.integers(1, 3))
+    datas = [draw(lg.data_spec(e=e, n=n, d=d))] + [
+        draw(lg.data_spec(e=draw(st.integers(1, 4)), n=draw(st.integers(n if kind == "gsl" else min_n, 24)), d=d))
+        for _ in range(k - 1)]
     return {"loss": spec, "datas": datas, "perm": draw(st.permutations(list(range(d)))),
             "eperm": draw(st.permutations(list(range(e)))),
             "bad_len": draw(st.sampled_from([-1, 1, 2])), "bad_what": draw(st.sampled_from(["weights", "filters"]))}
